@@ -57,7 +57,7 @@ __CPROVER_ensures((SUB_IS_C0(ctx) && ((g_nt > 0 && g_t0->len == 0) || (g_nt > 1 
 /* case A (own unit): the receive failed => the peer is disconnected, nothing else happens */
 static void sub0_recv_cb(void *arg)
 __CPROVER_requires(arg == g_pp && VP_NO_LOCK_HELD && g_pp->aio_recv.a_result != 0)
-__CPROVER_requires(LMQ_INNER_PRE(&SB_C0->lmq) && VP_AIOQS_PRE)
+__CPROVER_requires(SUB_LMQ_PRE(&SB_C0->lmq) && VP_AIOQS_PRE)
 __CPROVER_assigns(VP_PROTO_GHOST_LIST)
 __CPROVER_ensures(VP_NO_LOCK_HELD)
 __CPROVER_ensures(g_pipe_close_calls == OLD(g_pipe_close_calls) + 1 && g_pipe_close_last == g_pp->pipe && g_fin_calls == OLD(g_fin_calls) && g_pipe_recv_calls == OLD(g_pipe_recv_calls) && SB_C0->lmq.lmq_len == OLD(SB_C0->lmq.lmq_len) && g_qa.n == OLD(g_qa.n) && g_qb.n == OLD(g_qb.n))
